@@ -143,6 +143,10 @@ def gen_sys(r):
     if r.random() < 0.35:
         mode = {"mol": r.randrange(nmol), "freq": r.choice([150.0, 300.0, 700.0]), "hr": r.choice([0.05, 0.3, 1.0]),
                 "nmax": r.choice([2, 2, 3])}
+        # every second mode: one more vibrational level in the excited state than in the ground state, so that the one-exciton
+        # blocks of the sites have different sizes
+        if r.random() < 0.5:
+            mode["nmax1"] = mode["nmax"] + 1
     mult = 2 if (r.random() < 0.25 and mode is None and nmol <= 3) else 1
     return {"mols": mols, "coup": coup, "mode": mode, "mult": mult, "seed": r.randrange(10 ** 6)}
 
@@ -204,7 +208,7 @@ def build_agg(s):
                 md = qr.Mode(frequency=s["mode"]["freq"])
                 mol.add_Mode(md)
                 md.set_nmax(0, s["mode"]["nmax"])
-                md.set_nmax(1, s["mode"]["nmax"])
+                md.set_nmax(1, s["mode"].get("nmax1", s["mode"]["nmax"]))
                 md.set_HR(1, s["mode"]["hr"])
             mols.append(mol)
         agg = qr.Aggregate(molecules=mols)
@@ -857,12 +861,14 @@ def corpus_dm():
          "coup": [[0, 1, 100.0], [1, 2, -60.0]], "mode": None, "mult": 1, "seed": 7}
     sm = dict(s)
     sm["mode"] = {"mol": 0, "freq": 300.0, "hr": 0.1, "nmax": 2}
+    su = json.loads(json.dumps(sm))
+    su["mode"]["nmax1"] = 3                 # one-exciton blocks of 3, 2, 2 levels
     sg = dict(s)
     sg["mols"] = [{"e": [5000.0, 17300.0], "dip": [1.0, 0.0, 0.0], "reorg": 30.0}] + s["mols"][1:]
     out = []
     for (sy, T, rq, cx) in [(s, 5.0, "strong", "none"), (s, 0.0, "strong", "none"), (s, 300.0, "weak", "none"),
                             (s, 300.0, "weak", "H"), (s, 300.0, "strong", "H"), (s, 300.0, "weak", "X"),
-                            (sm, 77.0, "strong", "none"), (sm, 300.0, "weak", "none"), (s, 300.0, "impulsive", "none"),
+                            (sm, 77.0, "strong", "none"), (su, 77.0, "strong", "none"), (su, 300.0, "strong", "none"), (sm, 300.0, "weak", "none"), (s, 300.0, "impulsive", "none"),
                             (sg, 5.0, "thermal", "none"), (s, 1.0, "weak", "H"), (s, 300.0, "strong", "XH")]:
         out.append({"kind": "dm", "sys": sy, "temp": T, "req": rq, "ctx": cx})
     out.append({"kind": "agg_rdm", "sys": sg})
